@@ -111,6 +111,19 @@ func allSpecs() map[string]*PropSpec {
 		NotDecided:  "equality of the stored text with a reference client's buffer over all histories (needs execution); invalid UTF-8 (cannot arrive through JSON).",
 		Rules:       []func(*Ctx){ruleC01, ruleUnits("module", nil)},
 	})
+	fmtRules := []func(*Ctx){ruleFormatterEdits, ruleT14, ruleT15, ruleDecimalLossyGuard, ruleUnits("module", nil), ruleRepeat}
+	add(&PropSpec{
+		ID:          "C04",
+		Explanation: "D-LOSSY-GUARD: a rounding display format is applied to a quantity only under a test of that quantity's Exponent() (no digit loss). C04-ERRS: posting lines on which the parser reported an error are not rewritten, and the formatting handler passes the parser's errors to the formatter. T13: the formatter builds exactly two kinds of edits - a whole-line rewrite of a posting line and a deletion of trailing blanks with constant empty text - so non-posting lines change only by loss of trailing blanks. T14: every source-derived field the parser records in a posting (status, virtual kind, account, quantity, raw quantity, sign placement, commodity symbol/side/quoting, cost, assertion, comment) is read by the posting formatter. T15: delimiters the lexer drops (quotes of a quoted commodity, the ';' of a comment) are restored exactly. units on edit ranges. Workspace freshness (commodity formats come from the workspace caches).",
+		NotDecided:  "that re-parsing the formatted text yields the same tree (round-trip equality as a value); the effect of formats on meaning beyond digit loss.",
+		Rules:       append(append([]func(*Ctx){}, fmtRules...), wsFresh...),
+	})
+	add(&PropSpec{
+		ID:          "C05",
+		Explanation: "T13: every formatter edit stays on one line, posting rewrites span [0, LineUTF16Len(line)], trim edits start at UTF16Len(trimmed) and skip exactly the lines keyed by the expression that keys posting rewrites (no two edits overlap). units: edit characters are UTF-16 quantities, alignment arithmetic never mixes units. T15: nothing is added on re-emission that the lexer does not strip again (comment blank), so the fixed point does not drift. C05-INDENT: the common amount column and the emitted indent both derive from Options.IndentSize, the column honours MinAlignmentColumn. C06-REPEAT: padding counts are non-negative.",
+		NotDecided:  "idempotence as an equation on outputs; that all amounts start in the common column for every input (value-level).",
+		Rules:       fmtRules,
+	})
 	return m
 }
 
